@@ -174,8 +174,6 @@ def finding_class(entry, backend, cols, rng_, clauses, kinds_by_name=None, expec
         return "C04.lazy.no_source_records"
     colcol = any(rc[2][0] == "name" for (_, _, _, rc) in clauses)
     strcl = kinds_by_name is not None and any(kinds_by_name[rc[0]] == "t" for (_, _, _, rc) in clauses)
-    if entry == "open_url" and cols is not None:
-        return "C04.open_url.projection"
     return None
 
 
@@ -297,7 +295,6 @@ W_NAMES, W_KINDS = ["i", "f", "t"], ["i", "f", "t"]
 W_ROWS = [(1, 1.5, "ab"), (2, 1.5, "cd"), (3, 2.5, "ab"), (4, -1.0, "b")]
 WITNESS = {
     "C04.lazy.no_source_records": dict(backend="it", cols=None, rng_=None, entry="raw", clauses=[], rows=[]),
-    "C04.open_url.projection": dict(backend="np", cols=["f"], rng_=None, clauses=[], entry="open_url"),
 }
 
 
